@@ -110,6 +110,16 @@ def solve_scalar(
         denominator = sympy.collect_const(
             next(iter((denominator.terms.values()))).simplify()
         ).doit()  # Not sure why doit is needed here, but it is.
+        # The number of a fermion or spin mode that the term changes is zero where the
+        # denominator is evaluated (see `_cancel_binary_operator_numbers`); a resonance
+        # that only shows there must not slip through the check below.
+        denominator = denominator.xreplace(
+            {
+                _number_operator_to_placeholder(NumberOperator(op)): sympy.S.Zero
+                for delta, op in zip(shift, operators)
+                if delta and not isinstance(op, (BosonOp, LadderOp))
+            }
+        )
         if denominator == 0:
             raise ValueError(
                 "The subspaces must not share eigenvalues: the term with shifts "
